@@ -377,14 +377,14 @@ class IDView(Mapping, Set):
         """
         if s == 1:
             return {
-                i for n in self._id_dict[idx] for i in self._bi_id_dict[n]
+                i for n in self._bi_ids(idx) for i in self._ids_of_bi(n)
             }.difference({idx})
         else:
             return {
                 i
-                for n in self._id_dict[idx]
-                for i in self._bi_id_dict[n]
-                if len(self._id_dict[idx].intersection(self._id_dict[i])) >= s
+                for n in self._bi_ids(idx)
+                for i in self._ids_of_bi(n)
+                if len(self._bi_ids(idx).intersection(self._bi_ids(i))) >= s
             }.difference({idx})
 
     def duplicates(self):
@@ -435,8 +435,8 @@ class IDView(Mapping, Set):
         """
         dups = []
         hashes = defaultdict(list)
-        for idx, members in self._id_dict.items():
-            hashes[frozenset(members)].append(idx)
+        for idx in self._id_dict:
+            hashes[frozenset(self._bi_ids(idx))].append(idx)
         for _, edges in hashes.items():
             if len(edges) > 1:
                 try:
@@ -486,8 +486,19 @@ class IDView(Mapping, Set):
 
         """
         sought = set(neighbors)
-        found = [idx for idx, neighbors in self._id_dict.items() if neighbors == sought]
+        found = [idx for idx in self._id_dict if self._bi_ids(idx) == sought]
         return self.__class__.from_view(self, bunch=found)
+
+    def _bi_ids(self, idx):
+        """The bipartite neighbors of an ID of this view, as a set.
+
+        These are the edges a node belongs to, or the nodes an edge contains.
+        """
+        return self._id_dict[idx]
+
+    def _ids_of_bi(self, bi_idx):
+        """The IDs of this view's kind that are adjacent to a bipartite ID, as a set."""
+        return self._bi_id_dict[bi_idx]
 
     @classmethod
     def from_view(cls, view, bunch=None):
@@ -847,6 +858,16 @@ class DiNodeView(IDView):
         else:
             super().__init__(H, bunch)
 
+    def _bi_ids(self, idx):
+        """The bipartite neighbors of an ID, regardless of direction."""
+        d = self._id_dict[idx]
+        return d["in"].union(d["out"])
+
+    def _ids_of_bi(self, bi_idx):
+        """The IDs adjacent to a bipartite ID, regardless of direction."""
+        d = self._bi_id_dict[bi_idx]
+        return d["in"].union(d["out"])
+
     def dimemberships(self, n=None):
         """Get the edge ids of which a node is a member.
 
@@ -966,6 +987,16 @@ class DiEdgeView(IDView):
             super().__init__(None, bunch)
         else:
             super().__init__(H, bunch)
+
+    def _bi_ids(self, idx):
+        """The bipartite neighbors of an ID, regardless of direction."""
+        d = self._id_dict[idx]
+        return d["in"].union(d["out"])
+
+    def _ids_of_bi(self, bi_idx):
+        """The IDs adjacent to a bipartite ID, regardless of direction."""
+        d = self._bi_id_dict[bi_idx]
+        return d["in"].union(d["out"])
 
     def dimembers(self, e=None, dtype=list):
         """Get the node ids that are members of an edge.
